@@ -1378,6 +1378,11 @@ func (r *runningStep) runStage(forceCloseTimeoutMS int64) error {
 	if result.Error != nil {
 		return result.Error
 	}
+	if _, declared := r.stepSchema.Outputs()[result.OutputID]; !declared {
+		// Do not report an output the step does not have. Nothing could be connected to it.
+		return fmt.Errorf("plugin step %s/%s returned the output ID '%s', which it did not declare",
+			r.runID, r.pluginStepID, result.OutputID)
+	}
 
 	// Execution complete, move to state running stage outputs, then to state finished stage.
 	r.transitionRunningStage(StageIDOutput)
